@@ -6,6 +6,7 @@ import (
 	"flag"
 	"fmt"
 	"os"
+	"regexp"
 	"sort"
 	"strconv"
 	"strings"
@@ -88,7 +89,7 @@ func (ob *Obs) run(w World) *Result {
 	return r
 }
 
-// KnownFinding is one line of /verif/known_findings.jsonl.
+// KnownFinding is one open entry of /verif/KNOWN_FINDINGS.txt.
 type KnownFinding struct {
 	Property  string `json:"property"`
 	Signature string `json:"signature"`
@@ -194,6 +195,10 @@ func newWorker(prop string) *Worker {
 	return wk
 }
 
+var openLine = regexp.MustCompile(`^open: property=(\S+) signature="([^"]*)" :: (.*)$`)
+
+// loadKnown reads /verif/KNOWN_FINDINGS.txt. Only "open:" lines suppress
+// anything; "fixed:" lines are history and suppress nothing.
 func loadKnown(path string) []KnownFinding {
 	f, err := os.Open(path)
 	if err != nil {
@@ -205,14 +210,14 @@ func loadKnown(path string) []KnownFinding {
 	sc.Buffer(make([]byte, 1<<20), 1<<20)
 	for sc.Scan() {
 		line := strings.TrimSpace(sc.Text())
-		if line == "" || strings.HasPrefix(line, "#") {
+		if line == "" || strings.HasPrefix(line, "#") || strings.HasPrefix(line, "fixed:") {
 			continue
 		}
-		var k KnownFinding
-		if err := json.Unmarshal([]byte(line), &k); err != nil {
-			panic(harnessFault{"known_findings.jsonl: " + err.Error()})
+		m := openLine.FindStringSubmatch(line)
+		if m == nil {
+			panic(harnessFault{"KNOWN_FINDINGS.txt: unreadable line: " + line})
 		}
-		out = append(out, k)
+		out = append(out, KnownFinding{Property: m[1], Signature: m[2], Status: "open", What: m[3]})
 	}
 	return out
 }
